@@ -229,8 +229,8 @@ func (m *Mixed) Next(v *View) forge.BlockSpec {
 		if len(st) > 30 {
 			st = st[:30]
 		}
-		if m.ForceUngraded[h] {
-			st = nil
+		if m.ForceUngraded[h] || (nOPR > 0 && nOPR < 10 && !m.ForceGraded[h]) {
+			st = nil // an ungraded block has too few records of either kind
 		}
 		if len(st) > 0 && (m.ForceGraded[h] || m.rng.Float64() > 0.05) {
 			spec.SPR = m.W.StdSPRs(h, st, m.W.Prices)
